@@ -35,11 +35,13 @@ Proof.
   { apply map_ext. intros e. now rewrite (cn_eps _ _ C1), (cn_eps _ _ C2). }
   assert (E2 : map (fc_get i1) (pb_schemas P) = map (fc_get i2) (pb_schemas P)).
   { apply map_ext. intros n. now apply fc_get_canon with o. }
+  assert (E2' : map (fun n => snd (fc_get i1 n)) (pb_schemas P) = map (fun n => snd (fc_get i2 n)) (pb_schemas P)).
+  { apply map_ext. intros n. now rewrite (fc_get_canon i1 i2 o n C1 C2). }
   assert (E3 : map (match_attributes P i1) (pb_verbs P) = map (match_attributes P i2) (pb_verbs P)).
   { apply map_ext. intros v. now apply match_attributes_canon with o. }
   assert (E4 : load_names i1 = load_names i2).
   { unfold load_names. now rewrite Hc, (cn_sn _ _ C1), (cn_sn _ _ C2). }
-  now rewrite E1, E2, E3, E4.
+  now rewrite E1, E2, E2', E3, E4.
 Qed.
 
 (* ------------------------------------------------------------------ the view of a name under the invariant *)
